@@ -4,6 +4,7 @@
 #include "hcommon.h"
 #include "GMGPolar/gmgpolar.h"
 #include "GMGPolar/test_cases.h"
+#include <cmath>
 #include <fstream>
 #include <filesystem>
 using namespace vh;
@@ -139,6 +140,61 @@ int main(int argc, char** argv) {
                 std::printf("PROP bad-file-rejected %s %s => %s\n", which ? "angles" : "radii", bad[k] + 1,
                             rejected ? "ok" : "FAIL a missing / empty / malformed grid file was accepted");
             }
+        // ---- node vectors checkParameters must reject (and near misses it must accept) ----
+        {
+            const double P = M_PI;
+            std::vector<double> R{0.1, 0.2, 0.4, 0.7, 1.3}, T{0, 0.5 * P, P, 1.5 * P, 2 * P};
+            struct VC { const char* name; std::vector<double> r, t; bool valid; };
+            std::vector<VC> cs = {
+                {"valid", R, T, true},
+                {"valid-nonuniform", {0.1, 0.15, 0.4, 0.9, 1.3}, {0, 0.3 * P, 0.5 * P, P, 1.3 * P, 1.5 * P, 2 * P}, true},
+                {"repeated-radius", {0.1, 0.2, 0.2, 0.7, 1.3}, T, false},
+                {"repeated-last-radius", {0.1, 0.2, 0.4, 1.3, 1.3}, T, false},
+                {"repeated-first-radius", {0.1, 0.1, 0.4, 0.7, 1.3}, T, false},
+                {"decreasing-radius", {0.1, 0.4, 0.2, 0.7, 1.3}, T, false},
+                {"zero-radius", {0.0, 0.2, 0.4, 0.7, 1.3}, T, false},
+                {"negative-radius", {-0.1, 0.2, 0.4, 0.7, 1.3}, T, false},
+                {"one-radius", {0.5}, T, false},
+                {"repeated-angle", R, {0, 0.5 * P, 0.5 * P, P, 1.5 * P, 1.5 * P, 2 * P}, false},
+                {"repeated-angle-pi", R, {0, 0.5 * P, P, P, 1.5 * P, 2 * P}, false},
+                {"decreasing-angle", R, {0, P, 0.5 * P, 1.5 * P, 2 * P}, false},
+                {"first-angle-not-0", R, {0.1, 0.5 * P, P, 1.5 * P, 2 * P}, false},
+                {"last-angle-not-2pi", R, {0, 0.5 * P, P, 1.5 * P, 1.9 * P}, false},
+                {"negative-angle", R, {-0.5 * P, 0, 0.5 * P, P, 1.5 * P, 2 * P}, false},
+                {"two-angles", R, {0, 2 * P}, false},
+                {"missing-antipode", R, {0, 0.4 * P, P, 1.5 * P, 2 * P}, false},
+            };
+            for (auto& c : cs) {
+                bool thrown = false;
+                try { PolarGrid g(c.r, c.t); } catch (const std::exception&) { thrown = true; }
+                bool ok = c.valid ? !thrown : thrown;
+                std::printf("PROP node-vectors %s => %s\n", c.name, ok ? "ok" : (c.valid ? "FAIL a valid grid was rejected" : "FAIL an invalid grid (not strictly increasing / out of range / no antipode) was accepted"));
+            }
+            // generated grids whose spacing falls below one ulp: either an exception or strictly increasing radii
+            struct GC { double R0, Rm; int nr_exp, dv; };
+            for (auto c : {GC{1.0, 1.0 + 1e-12, 14, 0}, GC{1.0, 1.0 + 1e-12, 4, 11}, GC{0.5, 1.3, 4, 1}}) {
+                bool ok = true;
+                try {
+                    PolarGrid g(c.R0, c.Rm, c.nr_exp, 3, 0.5 * (c.R0 + c.Rm), 0, c.dv);
+                    for (int i = 0; i + 1 < g.nr(); i++) if (!(g.radius(i) < g.radius(i + 1))) ok = false;
+                } catch (const std::exception&) {}
+                std::printf("PROP generated-strictly-increasing R0=%.17g Rmax=%.17g nr_exp=%d divideBy2=%d => %s\n", c.R0, c.Rm, c.nr_exp, c.dv,
+                            ok ? "ok" : "FAIL an accepted grid has radii that do not increase strictly");
+            }
+            // a file written with too few digits has repeated radii: the loader must reject it
+            {
+                PolarGrid g(0.1, 1.3, 6, 3, 0.7, 0, 0);
+                for (int prec : {1, 2}) {
+                    g.writeToFile(dir + "/rc.txt", dir + "/tc.txt", prec);
+                    bool ok = true;
+                    try {
+                        PolarGrid h(dir + "/rc.txt", dir + "/tc.txt");
+                        for (int i = 0; i + 1 < h.nr(); i++) if (!(h.radius(i) < h.radius(i + 1))) ok = false;
+                    } catch (const std::exception&) {}
+                    std::printf("PROP coarse-file-not-degenerate precision=%d => %s\n", prec, ok ? "ok" : "FAIL a loaded grid has repeated radii");
+                }
+            }
+        }
     }
     return 0;
 }
